@@ -260,7 +260,21 @@ def render_sdl(schema, rng=None, order=None, extend=False, comments=False, multi
             one = " @oneOf" if d.get("one_of") else ""
             dfl = d.get("defaults") or {}
             out.append(desc + "input %s%s {%s%s\n}" % (n, one, sep, sep.join("%s: %s%s" % (f, render_type(t), (" = " + dfl[f]) if f in dfl else "") for f, t in d["fields"])))
-    out += ext_blocks
+    # the order of definitions in an SDL document carries no meaning: some extensions go to the end, others anywhere -
+    # also in front of the type they extend (schemas concatenated from per-feature files)
+    first = 1 if (out and out[0].startswith("#")) else 0
+    i = 0
+    while i < len(ext_blocks):
+        j = i
+        while j < len(ext_blocks) and ext_blocks[j].split()[2] == ext_blocks[i].split()[2]:
+            j += 1
+        group = ext_blocks[i:j]
+        if rng is not None and rng.random() < 0.5:
+            at = rng.randint(first, len(out))
+            out[at:at] = group
+        else:
+            out += group
+        i = j
     if tags and rng is not None:
         out.insert(0, "directive @tag(name: String) repeatable on FIELD_DEFINITION | OBJECT\n\ndirective @owner on FIELD_DEFINITION")
     if declare_builtins:
